@@ -22,10 +22,10 @@ ARGS = {
  "C02_m3": ["C02", "--archs", "sse2,avx512f", "--ops", "isfinite"],
  "C05_m1": ["C05", "--archs", "avx512bw", "--ops", "slide_left_3,slide_left_7,slide_left_4", "--types", "u8,i32"],
  "C05_m2": ["C05", "--archs", "sse2,avx2", "--ops", "compress", "--types", "f32,i32"],
- "C05_m3": ["C05", "--archs", "avx,avx2"],
+ "C05_m3": ["C05", "--archs", "avx,avx2", "--ops", "transpose", "--types", "i16,u16"],
  "C09_m1": ["C09", "--archs", "sse2,avx2", "--ops", "reduce_max", "--types", "i8,u16"],
  "C09_m2": ["C09", "--archs", "sse2,avx512f", "--ops", "reduce_min", "--types", "i32,u64"],
- "C09_m3": ["C09", "--archs", "avx512f"],
+ "C09_m3": ["C09", "--archs", "avx512f", "--ops", "haddp"],
  "C15_m1": ["C15"], "C15_m2": ["C15"], "C15_m3": ["C15"],
 }
 ids = sys.argv[1:] or sorted(d for d in os.listdir(os.path.join(V, "seeded")) if os.path.isdir(os.path.join(V, "seeded", d)))
